@@ -56,7 +56,7 @@ def mc14_job(settings, workers, delay, max_replay):
     import random
     from ..verdict import Mon
     mon = Mon('C14')
-    out = mc.run_mc(settings, workers=workers, delay=delay)
+    out = mc.run_mc(settings, workers=workers, delay=delay, base_text=settings.get('base_text'))
     tag = {'program': settings['program'], 'iterations': settings['iterations'], 'workers': workers, 'delay': delay,
            'failure': settings['failure']}
     info = {'rows': 0, 'replayed': 0, 'error': out.get('error'), 'wall': out['wall'], 'events': len(out['events'])}
@@ -65,7 +65,7 @@ def mc14_job(settings, workers, delay, max_replay):
         return {'mon': mon.dump(), 'info': info}
     header, rows, bad, stats = mc.parse_result(out['result_text'], settings)
     info['rows'] = len(rows)
-    base = mc.GEO_BASE if settings['program'] == 'GEOPHIRES' else mc.HIP_BASE
+    base = settings.get('base_text') or (mc.GEO_BASE if settings['program'] == 'GEOPHIRES' else mc.HIP_BASE)
     names = [nm for nm, _ in settings['inputs']]
     want_header = ', '.join(settings['outputs'] + names)
     mon.check('header', header == want_header, mechanism='C14/header-differs-from-outputs-then-inputs', header=header[:200],
@@ -99,6 +99,10 @@ def mc14_job(settings, workers, delay, max_replay):
         info['replayed'] += 1
         mon.check('row-replay', got == r['outputs'], mechanism='C14/row-not-reproducible-from-its-recorded-inputs',
                   row_outputs=r['outputs'], resimulated=got, inputs=r['inputs'][:3], **tag)
+        if any((g or '').startswith('-') for g in got):
+            # signed figures: the report prints a negative value for at least one requested output of this row
+            mon.check('row-replay-signed', got == r['outputs'], mechanism='C14/row-not-reproducible-from-its-recorded-inputs:negative-output',
+                      row_outputs=r['outputs'], resimulated=got, **tag)
     # ---- statistics
     if rows and out.get('json_text') and all(len(r['outputs']) == nout for r in rows):
         try:
@@ -140,6 +144,18 @@ def run(ctx):
     plans = schedules(ctx)
     jobs = [{'fn': 'gxv.props.c14:mc14_job', 'args': {'settings': st, 'workers': w, 'delay': d, 'max_replay': ctx.pick(40, 150)},
              'timeout': 1200 + 2 * st['iterations']} for st, w, d in plans]
+    # directed run: a loss-making project, so that requested outputs are negative (NPV, VIR, MOIC) in every row
+    st = mc.make_settings(ctx.rng, 'GEOPHIRES', ctx.pick(24, 120), n_inputs=3, n_outputs=1)
+    lossy = mc.GEO_BASE.replace('Starting Electricity Sale Price, 0.12', 'Starting Electricity Sale Price, 0.02') \
+        .replace('Ending Electricity Sale Price, 0.12', 'Ending Electricity Sale Price, 0.02')
+    assert lossy != mc.GEO_BASE
+    outs = ['Average Net Electricity Production', 'Project NPV', 'Project VIR=PI=PIR', 'Project MOIC']
+    st['outputs'] = outs
+    st['text'] = '\n'.join([ln for ln in st['text'].split('\n') if ln.startswith('INPUT')] + [f'OUTPUT, {o}' for o in outs]
+                           + [f'ITERATIONS, {st["iterations"]}']) + '\n'
+    st['base_text'] = lossy
+    jobs.append({'fn': 'gxv.props.c14:mc14_job', 'args': {'settings': st, 'workers': 4, 'delay': 0.0, 'max_replay': ctx.pick(24, 80)},
+                 'timeout': 1500})
     jobs.sort(key=lambda j: -j['args']['settings']['iterations'])
     rows = replayed = 0
     with Pool(5) as pool:
@@ -159,9 +175,9 @@ def run(ctx):
                 ctx.distinct.add(hashlib.sha1(json.dumps([st['text'], a['workers'], a['delay']]).encode()).hexdigest())
             ctx.sample({'settings': st['text'].split('\n')[:-1], 'workers': a['workers'], 'delay_s': a['delay'],
                         'rows': v['info']['rows'], 'rows_replayed': v['info']['replayed'], 'mc_error': v['info']['error']}, limit=4)
-    ctx.coverage.update({'mc_runs': len(plans), 'rows_observed': rows, 'rows_replayed': replayed})
+    ctx.coverage.update({'mc_runs': len(jobs), 'rows_observed': rows, 'rows_replayed': replayed})
     ctx.required.update({'row-grammar': 200, 'row-replay': 150, 'statistics-json': 60, 'statistics-text': 60, 'json-equals-text': 60,
-                         'header': 8})
+                         'header': 8, 'row-replay-signed': 10})
     if not ctx.mon.viols and ctx.mon.notes.get('failing-subset-run-with-surviving-rows', 0) == 0:
         ctx.required['failing-subset-observed'] = 1
     ctx.rule = ('the C13 schedule family (GEOPHIRES fast base and HIP-RA-X; iterations {1,3,16,17,40,120,300(,1000)}; 1/2/4/16/32 '
